@@ -1,4 +1,4 @@
-import ScrapliModel.C05Obligations
+import ScrapliModel.PromptClass
 /-
   C05 helper lemmas: the language-level reading of the building blocks (`all`, `lit`, `contains`,
   `alts`, `ands`), the link between the executable classifier (`classify`, substring test
